@@ -272,6 +272,11 @@ def _r112(ctx: Ctx) -> None:
             sim.fields['_results'] = {'success': list(pattern), 'n_runs': len(pattern)}
             return it.call_closure(Closure(gr, mi, ci), [], {}, gr, self_obj=sim)
         outs = guard('R11.2', mi, gr)(lambda: it.explore(thunk))
+        if len(outs) == 1 and outs[0].kind == 'raise':
+            # the recorded lists are concrete: a single raising path is what get_results does with them
+            ctx.ob('R11.2', site_of(mi, gr), f'get_results on success pattern {pattern}: n_fail/n_runs/p_est/p_se', False,
+                   f'raises {outs[0].exc}', key=f'DirectSimulation.get_results|{"".join("1" if s else "0" for s in pattern) or "empty"}')
+            continue
         ctx.need(len(outs) == 1 and outs[0].kind == 'return' and isinstance(outs[0].value, dict), 'R11.2',
                  site_of(mi, gr), f'get_results: {outs!r}')
         d = outs[0].value
@@ -347,6 +352,64 @@ def _guarded_by_rng_none(node, pm) -> bool:
     return False
 
 
+def _guard_param(node, pm, params) -> Optional[str]:
+    """Parameter p such that `node` runs only when `p is None` (the fallback arm of an optional generator)."""
+    def none_test(t):
+        if isinstance(t, ast.Compare) and len(t.ops) == 1 and isinstance(t.left, ast.Name) and t.left.id in params \
+                and isinstance(t.comparators[0], ast.Constant) and t.comparators[0].value is None:
+            if isinstance(t.ops[0], (ast.Is, ast.Eq)):
+                return t.left.id, True
+            if isinstance(t.ops[0], (ast.IsNot, ast.NotEq)):
+                return t.left.id, False
+        return None, None
+    cur = node
+    while cur in pm:
+        par = pm[cur]
+        if isinstance(par, (ast.If, ast.IfExp)):
+            name, when_none = none_test(par.test)
+            if name is not None:
+                body = par.body if isinstance(par.body, list) else [par.body]
+                orelse = par.orelse if isinstance(par.orelse, list) else [par.orelse]
+                if (when_none and cur in body) or (not when_none and cur in orelse):
+                    return name
+        cur = par
+    return None
+
+
+def _threading(ctx: Ctx, E, reach) -> int:
+    """Every call, reachable from _run, of a function with an optional generator parameter (one whose None value
+    selects a process-global generator) supplies that parameter."""
+    gen: Dict[int, Set[str]] = {}
+    for fi in E.funcs.values():
+        calls = global_rng_calls(fi)
+        if not calls:
+            continue
+        pm = parent_map(fi.fn)
+        ps = {g for g in (_guard_param(n, pm, set(fi.params)) for n, _ in calls) if g}
+        if ps:
+            gen[id(fi)] = ps
+    n = 0
+    for fi in sorted(reach, key=lambda f: f.qual):
+        for call, targets, _ in fi.calls:
+            for t in targets:
+                for g in sorted(gen.get(id(t), ())):
+                    n += 1
+                    kw = {k.arg: k.value for k in call.keywords}
+                    if None in kw or any(isinstance(a, ast.Starred) for a in call.args):
+                        raise AnalysisError('R11.3', f'{fi.mi.relpath}:{call.lineno}',
+                                            f'{norm_stmt(call)}: arguments passed by unpacking; cannot tell whether {g} is supplied')
+                    pos = t.params.index(g) - (1 if t.ci is not None and t.params and t.params[0] in ('self', 'cls')
+                                               and isinstance(call.func, ast.Attribute) else 0)
+                    val = kw.get(g, call.args[pos] if len(call.args) > pos else None)
+                    ok = val is not None and not (isinstance(val, ast.Constant) and val.value is None)
+                    ctx.ob('R11.3', f'{fi.mi.relpath}:{call.lineno}', f'{fi.qual}: the call of {t.qual} passes its generator '
+                                                                      f'argument {g}', ok,
+                           f'{norm_stmt(call)} leaves {g} at None, so {t.qual} draws from the process-global generator even '
+                           f'when the run was given a seeded one: the run is not reproducible from its seed',
+                           key=f'{fi.qual}|threads[{t.qual}.{g}]')
+    return n
+
+
 def _r113(ctx: Ctx) -> None:
     m = ctx.model
     E = effects(m)
@@ -373,6 +436,9 @@ def _r113(ctx: Ctx) -> None:
     ctx.need(n_sites >= 2, 'R11.3', root.site, f'only {n_sites} guarded global-generator sites found (expected the '
                                                f'rng=None fallbacks of run_once and generate)')
     ctx.extra['reachable_from_run'] = len(reach)
+    n_thr = _threading(ctx, E, reach)
+    ctx.need(n_thr >= 2, 'R11.3', root.site, f'only {n_thr} calls of functions with an optional generator found (expected '
+                                             f'run_once -> generate -> fast_choice)')
     from .c06 import global_state_rule
     global_state_rule(ctx, 'R11.3', [ci.methods['_run']], 'trials are run')
     # decoders' own generators are seeded from constructor arguments
